@@ -1,9 +1,10 @@
 """C11 - a tag accepts its arguments exactly when the equivalent Python call would.
 
 Oracle: specs/ArgBinding.tla - Python's argument binding as a state machine over the argument
-sequence (Declare(param)* ; Pass(item)*), with the declarative definition BindDecl checked equal
-to the machine by TLC, plus the theorems EveryValueBoundOnce, KeysNonIdentifierOnlyViaKwargs,
-PositionalOnlyNeverByKeyword, ErrorsAreSticky.
+sequence (Declare(param)* ; Pass(item)*).  TLC checks on every reachable state that the machine
+equals the declarative definition BindDecl (all positional values first, then keywords, then
+defaults), that the state is a function of (signature, call), EveryValueBoundOnce,
+KeysNonIdentifierOnlyViaKwargs, PositionalOnlyNeverByKeyword and ErrorsAreSticky.
 
 spec -> code: MC_C11 builds every (signature, call) pair inside the bound by actions and exports
               each reachable state as one case with: py (what Python answers for the literal
@@ -16,21 +17,32 @@ spec -> code: MC_C11 builds every (signature, call) pair inside the bound by act
                 Rs the same template on a tag whose render is a callable object / functools.partial
                    (no __code__) -> validate_params fallback path (inspect.Signature).
               Rf and Rs must be in adm, must agree with each other, and the probe must not have
-              been called when the tag raised.
+              run when the tag raised.
 code -> spec: seeded random deeper cases (more parameters, more items, larger spreads, dict keys
               in any order, calls continued after an error) are executed the same three ways and
-              the recorded outcomes are validated by TLC against Trace_C11 (same Pass action).
+              the recorded outcomes are validated by TLC against Trace_C11 (same Pass action,
+              same theorems as invariants).
 
 Observation: the probe render() returns json(locals()); the harness reads the bindings from the
-rendered template output and the exception type from the raised exception.
+rendered template output, the exception type from the raised exception, and whether the body ran.
+Forms that must not matter are varied by case index: BaseNode subclass / @template_tag; tag
+without end tag / self-closing `{% pf .. / %}` / block `{% pf .. %}body{% endpf %}`; literal
+lists/dicts / context variables; literal ints / context variables; a trailing flag word
+(every probe tag has allowed_flags=["required"]).
 
 Unspecified zones (the specification admits every listed answer, see ArgBinding.tla Admissible):
   Z1 non-empty list spread after a supplied keyword (Python accepts; docs are silent);
   Z2 positional / list spread after an *empty* dict spread (Python: SyntaxError; nothing supplied);
   Z3 a repeated key where one occurrence comes from a spread (Python: TypeError; docs say
-     "right-most overwrites").
+     "right-most overwrites");
+  Z4 the same identifier keyword written twice (property: TypeError; Python: SyntaxError).
   Order of **kwargs is not compared (dict equality).  Error *messages* are not compared.
-  Not generated: non-string dict keys, `key:sub=` aggregate keys, flags, filters (C02/C12).
+  Not generated: non-string dict keys, `key:sub=` aggregate keys, filters (C02/C12), flag words
+  anywhere but at the end, a flag word together with `key=<variable named like the flag>` or two
+  such keywords (TemplateSyntaxError "flag multiple times"; the docs do not define it).
+
+Known deviations (ArgBindingDev.tla) are reported under finding keys `<deviations>:<kind>`;
+the set of deviations is the smallest one whose prediction equals the observed outcome exactly.
 """
 from __future__ import annotations
 
@@ -40,7 +52,7 @@ import os
 import random
 from concurrent.futures import ThreadPoolExecutor
 from pathlib import Path
-from typing import Any, Dict, List, Optional, Tuple
+from typing import Any, Dict, List, Tuple
 
 from . import tlc
 from .core import Check, MachineryError, sha, workdir
@@ -50,7 +62,7 @@ NAMES = ["a", "b", "c", "d", "e", "f", "g", "h"]
 SPECIAL = {"data-x", "class"}
 FLAG = "required"       # every probe tag declares allowed_flags=[FLAG]
 RANK = {"po": 1, "pk": 2, "va": 3, "ko": 4, "vk": 5}
-INVARIANTS = ["TypeOK", "MachineAgreesWithDeclarative", "EveryValueBoundOnce",
+INVARIANTS = ["TypeOK", "StateIsFunctionOfCase", "MachineAgreesWithDeclarative", "EveryValueBoundOnce",
               "KeysNonIdentifierOnlyViaKwargs", "PositionalOnlyNeverByKeyword", "Export"]
 
 
@@ -343,9 +355,6 @@ def judge(row: Dict[str, Any], obs: Dict[str, Any]) -> List[Dict[str, Any]]:
     return bad
 
 
-_SIG_RE = None
-
-
 def _replay_file(job):
     """Worker: replay every case of one exported part file.  Lines are grouped by signature on the
     raw text (one probe pair per signature) and parsed one at a time, so a part never sits in memory
@@ -563,7 +572,7 @@ def _verdicts(out: str, n: int) -> Dict[str, Any]:
 def validate_traces(chk: Check, total: int, max_params: int, max_items: int,
                     inside: List[Tuple[int, int]] = ()) -> None:
     w = workdir("c11tr")
-    per = max(50, total // (_procs() * 3))
+    per = 250       # fixed, so that the cases do not depend on the number of worker processes
     jobs = []
     n = 0
     while n < total:
@@ -643,10 +652,47 @@ THOROUGH = [
 
 
 def core(chk: Check, configs, ntraces: int, max_params: int, max_items: int) -> None:
+    import time
     for name, bounds, parts in configs:
-        replay_files(chk, model_check(chk, name, bounds, parts), name)
+        t0 = time.time()
+        files = model_check(chk, name, bounds, parts)
+        t1 = time.time()
+        replay_files(chk, files, name)
+        chk.cov.setdefault("wall_s_by_phase", {})[name] = {"tlc": round(t1 - t0, 1),
+                                                          "replay": round(time.time() - t1, 1)}
+    t0 = time.time()
     validate_traces(chk, ntraces, max_params, max_items,
                     [(b["MaxParams"], b["MaxItems"]) for _, b, _ in configs])
+    chk.cov.setdefault("wall_s_by_phase", {})["traces"] = round(time.time() - t0, 1)
+
+
+def builtin_tags(chk: Check, configs) -> None:
+    """Evidence only: the library's own tags are BaseNode subclasses wrapped by the same NodeMeta
+    code; record their render signatures and whether they lie inside the enumerated space."""
+    import inspect
+    import django_components.templatetags.component_tags  # noqa: F401 - imports every built-in node
+    from django_components.node import BaseNode
+    kind = {inspect.Parameter.POSITIONAL_ONLY: "po", inspect.Parameter.POSITIONAL_OR_KEYWORD: "pk",
+            inspect.Parameter.VAR_POSITIONAL: "va", inspect.Parameter.KEYWORD_ONLY: "ko",
+            inspect.Parameter.VAR_KEYWORD: "vk"}
+
+    def subclasses(c):
+        for x in c.__subclasses__():
+            yield x
+            yield from subclasses(x)
+    out = {}
+    for c in subclasses(BaseNode):
+        if not c.__module__.startswith("django_components."):
+            continue
+        sig = [{"k": kind[p.kind], "d": p.default is not inspect.Parameter.empty}
+               for p in c._signature.parameters.values()]
+        out[c.tag] = {"signature": str(c._signature).split(" -> ")[0], "abstract": sig_source(sig),
+                      "wrapped_by_NodeMeta": bool(getattr(c.render, "_djc_wrapped", False)),
+                      "fast_path": hasattr(getattr(c.render, "__wrapped__", None), "__code__"),
+                      "inside_exhaustive_bound": any(len(sig) <= b["MaxParams"] and
+                                                     all(p["k"] in b.get("ParamKinds", RANK) for p in sig)
+                                                     for _, b, _ in configs)}
+    chk.cov["builtin_tags"] = out
 
 
 def run(tier: str) -> int:
@@ -657,17 +703,22 @@ def run(tier: str) -> int:
         core(chk, QUICK, 4000, 6, 6)
     else:
         core(chk, THOROUGH, 40000, 7, 7)
+    builtin_tags(chk, QUICK if tier == "quick" else THOROUGH)
     chk.cov["exhaustive"] = True
     chk.cov["rule"] = ("every reachable state of MC_C11 = one (signature, call) pair inside the bound (calls are "
-                       "not extended after a sticky binding error), each replayed on the real tag through both "
-                       "validation paths and on CPython; random deeper pairs validated by Trace_C11. "
-                       "Non-trivial = non-empty signature or call; distinct by hash of (signature, call)")
+                       "not extended after a sticky binding error or a positional-after-keyword), each replayed on "
+                       "the real tag through both validation paths and on CPython; random deeper pairs validated by "
+                       "Trace_C11. Non-trivial = non-empty signature or call; distinct = TLC distinct states "
+                       "(checked equal to the exported lines) + random cases outside every exhaustive bound "
+                       "(by hash of (signature, call))")
     chk.assumptions += [
         "the j-th supplied value is the int j, defaults are 100+i: binding is insensitive to the values themselves",
         "keys beyond the parameter names, one unknown identifier, data-x, class, args, kwargs behave like one of these",
         "zones Z1-Z3 (late list spread, empty dict spread before positional, spread-produced duplicate key) admit "
         "several answers; **kwargs order and error messages are not compared",
         "fallback path reached with a callable object / functools.partial as render (no __code__)",
+        "built-in tags go through the same NodeMeta wrapper; their render signatures (<= 3 parameters after "
+        "context) lie inside the exhaustively enumerated signature space, they are not driven themselves",
     ]
     return chk.finish()
 
@@ -680,7 +731,9 @@ def replay(path: str) -> int:
     boot.setup()
     d = json.load(open(path))
     case = d["case"]
-    sig, call = case["sig"], case["call"]
+    sig = [{"k": p["k"], "d": bool(p["d"])} for p in case["sig"]]
+    call = [{"t": it["t"], "k": it.get("k", ""), "n": it.get("n", 0), "ks": list(it.get("ks", [])),
+             "fv": bool(it.get("fv", False))} for it in case["call"]]
     pr = Probes(_library(), sig, 0)
     failed = False
     for variant in (0, 1):      # literal spreads and context-variable spreads
@@ -694,10 +747,12 @@ def replay(path: str) -> int:
         _write_cfg(cfg, "TrSpec", {}, ["TraceTypeOK"], [])
         r = tlc.require_ok(tlc.run("Trace_C11", str(cfg), env={"IN": str(f)}, workers=1, heap="1g"), "Trace_C11")
         v = _verdicts(r.out, 1)
-        print(json.dumps({"signature": f"def render(self, context, {sig_source(sig)})",
-                          "template": obs["template"], "context": obs["context"], "python": obs["python"],
-                          "cpython": t["py"], "fast": obs["fast"], "slow": obs["slow"],
-                          "verdict": "ACCEPT" if v["accepted"] else {"REJECT": v["rejected"][1]}}, indent=1))
+        for k, x in [("signature", f"def render(self, context, {sig_source(sig)})"),
+                     ("template", obs["template"]), ("context", obs["context"]), ("python", obs["python"]),
+                     ("cpython", obs["py"]), ("fast", obs["fast"]), ("slow", obs["slow"]),
+                     ("verdict", "ACCEPT" if v["accepted"] else {"REJECT": v["rejected"][1]})]:
+            print(f"{k:10s} {x if isinstance(x, str) else json.dumps(x)}")
+        print()
         failed = failed or bool(v["rejected"])
     return 1 if failed else 0
 
@@ -707,7 +762,7 @@ _FILES_CACHE: Dict[str, List[Path]] = {}
 
 SELFTEST_CONFIGS = [
     ("st_p2i3", dict(MaxParams=2, MaxItems=3, MaxFlat=4, MaxSpread=2, MaxDict=1,
-                     ExtraKeys={"u", "data-x"}, UseVarNames=False), 2),
+                     ExtraKeys={"u", "data-x"}, UseVarNames=False), 6),
 ]
 
 
@@ -802,6 +857,9 @@ def selftest(tier: str) -> int:
                      "                for key, value in list(resolved.items())[:1]:\n"
                      "                    resolved_params.append(TagParam(key=key, value=value))\n")]]
 
+    FLAG_KEPT = [[("        found_flags.add(value)\n",
+                   "        found_flags.add(value)\n        remaining_attrs.append(attr)\n")]]
+
     def nodemeta(subs):
         def cm():
             new = _mutant(dnode.NodeMeta.__dict__["__new__"].__func__
@@ -829,6 +887,7 @@ def selftest(tier: str) -> int:
         ("node: positional after non-identifier key accepted", nodemeta(SPECIAL_POS)),
         ("resolve: list spread passed as one value", resolve(LIST_SPREAD)),
         ("resolve: dict spread keeps only first key", resolve(DICT_SPREAD)),
+        ("parse: flag word also passed on as an argument", mut_tt("_extract_flags", FLAG_KEPT)),
     ]
 
     def body(chk: Check) -> None:
